@@ -28,7 +28,7 @@ run_one() {
       if [ "$p" = "$own" ]; then obl=$(echo "$o" | grep -E '^(VIOLATED|UNDECIDED)' | sed 's/ config=.*//' | awk '{print $2}' | sort -u | head -6 | tr '\n' ' '); fi
     fi
   done
-  echo "{\"seed\":\"$name\",\"applies\":true,\"property\":\"$own\",\"detected_by\":[${det%,}],\"own_obligations\":\"$obl\"}" > $tmp/$name.json
+  jq -n --arg seed "$name" --arg own "$own" --argjson det "[${det%,}]" --arg obl "$obl" '{seed:$seed,applies:true,property:$own,detected_by:$det,own_obligations:$obl}' > $tmp/$name.json
   rm -rf $d
 }
 export -f run_one
